@@ -193,6 +193,10 @@ func c17Gen(t *rapid.T) c17Case {
 			if st.Op == "proj" && rapid.Bool().Draw(t, "sendallafterproj") {
 				steps = append(steps, c11Step{Op: "sendall"})
 			}
+			if st.Op == "start" && (c.Source == "triangle" || c.Source == "simpulse") && rapid.Bool().Draw(t, "cfgrunning") {
+				// a client re-sends the source's configuration while it runs (refused)
+				steps = append(steps, c11Step{Op: "wait", N: 3}, c11Step{Op: "cfgrunning", N: rapid.IntRange(0, 7).Draw(t, "cfgn")})
+			}
 			if st.Op == "wc" && rapid.Bool().Draw(t, "labelnowait") {
 				// (skipped by the runner unless the source runs and is writing)
 				steps = append(steps, c11Step{Op: "labelnowait", Text: "state"})
